@@ -21,6 +21,7 @@ import SxVerif.Props.C07
 import SxVerif.Spec.Compose
 import SxVerif.Proofs.ComposeWire
 import SxVerif.Proofs.ComposeScan
+import SxVerif.Proofs.CaptureSource
 
 namespace SxVerif.C01
 open SxVerif.Gen SxVerif.Spec.Gen SxVerif.Generated SxVerif.Compose SxVerif.Spec.Compose
@@ -238,5 +239,20 @@ example : PacketRunOf C07.cfg exLink (.tcp 2) exRs ⟨exRnd, exInp, exSt⟩ :=
      | none => simp [hr] at h
      | some s => rfl),
    Or.inl (by decide)⟩
+
+
+/-- (T) the capture source follows the lock protocol of `Model/CaptureSource.lean`: `Close` = lock, deferred unlock,
+    `closed = true`, unmap; one read = lock, EOF if closed, read-and-copy, unlock (regenerated from
+    pkg/packet/afpacket/readwriter.go) -/
+theorem capture_source_protocol : SxVerif.Generated.sourceDesc = SxVerif.CaptureSource.modelled := by decide
+
+/-- **no read ever touches an unmapped ring**: any number of receiver goroutines (one is left behind by every engine
+    run / port chunk) and any number of `Close` calls, interleaved in any way — the D25 crash cannot happen -/
+theorem capture_source_never_faults (s : SxVerif.CaptureSource.Sys) (h : SxVerif.CaptureSource.Reachable s) :
+    s.fault = false := (SxVerif.CaptureSource.inv_reachable h).noFault
+
+/-- once closed, always closed: a receiver that is left behind can only get io.EOF out of the source -/
+theorem capture_source_closed_stays {s t : SxVerif.CaptureSource.Sys} (hs : SxVerif.CaptureSource.Step s t)
+    (hc : s.closed = true) : t.closed = true := SxVerif.CaptureSource.closed_mono hs hc
 
 end SxVerif.C01
